@@ -35,3 +35,28 @@ Theorem c05_resume_never_panics : forall (a : assets) (s : session) (r : resume)
   resume_session a s r tmo <> Resumed RPanic.
 Proof. exact resume_no_panic. Qed.
 Print Assumptions c05_resume_never_panics.
+
+(* Termination of the main loop for EVERY flow graph (cycles, self-entering and mutually entering
+   sub-flows, terminal enters, empty flows), every option value (any integers) and every history:
+   the model's loop is recursion on fuel with a distinct out-of-fuel result; the fuel the model gives
+   itself - linear in max(0, MaxStepsPerSprint) and in the number of runs - always suffices, so the
+   out-of-fuel result never occurs: every engine call returns.  Proved with the measure
+   2 * (steps that may still be counted) + depth of the current run + (1 if a flow is pushed), which
+   decreases with every iteration of the loop (proofs/EngineFuel.v). *)
+From Verif Require Import proofs.EngineInv proofs.EngineFuel.
+
+Theorem c05_start_terminates : forall (a : assets) (t : trigger) (flow : id), start a t flow <> ROutOfFuel.
+Proof. exact start_fuel_suffices. Qed.
+Print Assumptions c05_start_terminates.
+
+Theorem c05_resume_terminates : forall (a : assets) (s : session) (r : resume) (tmo : text),
+  reachable s -> resume_session a s r tmo <> Resumed ROutOfFuel.
+Proof. exact reachable_resume_fuel_suffices. Qed.
+Print Assumptions c05_resume_terminates.
+
+(* the bound itself: each iteration of the loop decreases the measure (so the number of iterations of a
+   sprint is at most 2 * (max(0, MaxStepsPerSprint) + 1) + number of runs + 1) *)
+Theorem c05_iteration_decreases_measure : forall (a : assets) (x : st) (l : lstate) (x' : st) (l' : lstate),
+  term_inv a x l -> cuw_iter a x l = ICont x' l' -> term_inv a x' l' /\ (mu a x' l' < mu a x l)%nat.
+Proof. exact cuw_iter_term. Qed.
+Print Assumptions c05_iteration_decreases_measure.
